@@ -584,8 +584,9 @@ SCOPES = ["", "enc", "layers.0", "self_attn", "mlp", "blk_1", "a.b"]
 
 
 class Gen:
-    def __init__(self, rng, n_steps=8, p_sub=0.12, p_fn=0.12, p_named=0.15, p_scope=0.25, max_depth=2):
+    def __init__(self, rng, n_steps=8, p_sub=0.12, p_fn=0.12, p_named=0.15, p_scope=0.25, max_depth=2, loop_scan_outputs=True):
         self.rng = rng
+        self.loop_scan_outputs = loop_scan_outputs
         self.n_steps = n_steps
         self.p_sub, self.p_fn, self.p_named, self.p_scope, self.max_depth = p_sub, p_fn, p_named, p_scope, max_depth
         self.ids = itertools.count()
@@ -811,9 +812,24 @@ class Gen:
                 forced.append(o["id"])
             out_ids.append(o["id"])
             pool.append(o)
+        # scan outputs: the body returns K more values after the loop-carried ones; the Loop node gets K more outputs
+        # holding one row per iteration (trip is a literal and cond_out = cond_in, so there are exactly `trip` rows)
+        nscan = rng.choice([0, 0, 1, 1, 2]) if self.loop_scan_outputs else 0
+        for j in range(nscan):
+            src = rng.choice([carried, ret])
+            so = self.new(F, v["shape"], False)
+            lit = rng.choice([2.0, -1, 0.5])
+            body.append(dict(kind="op", scope=list(scope), op="Mul", args=[("v", src["id"]), ("lit", lit)], attrs={}, outs=1, subs=[], ids=[so["id"]]))
+            rets.append(so["id"])
+            decl.append(f"row{n}_{j}" if rng.random() < 0.6 else "")
+            o = self.new(F, (trip,) + tuple(v["shape"]), False)
+            out_ids.append(o["id"])
+            forced.append(o["id"])
+            if trip > 0 and len(v["shape"]) <= 1:
+                pool.append(o)
         sub = dict(ins=ins, body=body, rets=rets, decl=decl)
         return dict(kind="op", scope=list(scope), op="Loop", args=args, attrs={}, outs=self.outs_spec(len(out_ids)),
-                    subs=[("body", sub)], ids=out_ids, pre=[], force_out=forced, vlit=bool(extras))
+                    subs=[("body", sub)], ids=out_ids, pre=[], force_out=forced, vlit=bool(extras), nscan=nscan)
 
     def gen_scan(self, pool, scope, depth):
         """Scan(states..., scan input; body): a tensor state, Python literals as further states (heterogeneous
@@ -929,7 +945,26 @@ def directed_traces():
           "outputs": [8, 9, 10],
           "types": {0: (F, (3,)), 1: (I, ()), 2: (Bo, ()), 3: (F, (3,)), 4: (I, ()), 5: (F, (3,)), 6: (I, ()), 7: (Bo, ()),
                     8: (F, (3,)), 9: (I, ()), 10: (F, (3,))}}
-    return [t1, t2, t3]
+    # every control-flow form with rows: a Loop with a loop-carried tensor, a literal-initialised counter and one scan
+    # output, then a Scan over that scan output with a literal state; the Scan body captures a root value
+    body4 = [op([], "Add", [("v", 3), ("lit", 0.125)], {}, 1, [5]),
+             op([], "Add", [("v", 4), ("v", 1)], {}, 1, [6]),
+             op([], "Identity", [("v", 2)], {}, 1, [7]),
+             op([], "Mul", [("v", 3), ("lit", 2.0)], {}, 1, [8])]
+    loop4 = dict(kind="op", scope=[], op="Loop", args=[("lit", 3), ("none",), ("v", 0), ("lit", 0)], attrs={}, outs=3,
+                 subs=[("body", dict(ins=[("it", I, (), 1), ("cnd", Bo, (), 2), ("acc", F, (3,), 3), ("k", I, (), 4)],
+                                     body=body4, rets=[7, 5, 6, 8], decl=["cnd_out", "", "", "row"]))], ids=[9, 10, 11], vlit=True, nscan=1)
+    sbody = [op(["blk"], "ReduceMax", [("v", 13), ("lit", [0])], {"keepdims": 0}, 1, [14]),
+             op(["blk"], "Add", [("v", 12), ("v", 14)], {}, 1, [15]),
+             op(["blk"], "Mul", [("v", 13), ("v", 0)], {}, 1, [16])]
+    scan4 = dict(kind="op", scope=["blk"], op="Scan", args=[("lit", 0.5), ("v", 11)], attrs={"num_scan_inputs": 1}, outs=["s_fin", "ys"],
+                 subs=[("body", dict(ins=[("st", F, (), 12), ("el", F, (3,), 13)], body=sbody, rets=[15, 16], decl=["", "srow"]))],
+                 ids=[17, 18], vlit=True)
+    t4 = {"inputs": [("x0", F, (3,), 0)], "steps": [loop4, scan4], "outputs": [9, 10, 11, 17, 18],
+          "types": {0: (F, (3,)), 1: (I, ()), 2: (Bo, ()), 3: (F, (3,)), 4: (I, ()), 5: (F, (3,)), 6: (I, ()), 7: (Bo, ()), 8: (F, (3,)),
+                    9: (F, (3,)), 10: (I, ()), 11: (F, (3, 3)), 12: (F, ()), 13: (F, (3,)), 14: (F, ()), 15: (F, ()), 16: (F, (3,)),
+                    17: (F, ()), 18: (F, (3, 3))}}
+    return [t1, t2, t3, t4]
 
 
 def renumber(t, vals):
@@ -1252,6 +1287,8 @@ def np_replay(trace, feeds):
                 carried = [(lambda z: np.asarray(z) if isinstance(z, (np.ndarray, np.generic)) else py_lit_array(z))(arg(a, env)) for a in s["args"][2:]]
                 cond = True
                 k = 0
+                nst = len(carried)
+                rows = [[] for _ in range(len(sb["rets"]) - 1 - nst)]      # scan outputs: one row per iteration
                 while cond and k < trip:
                     e2 = dict(env)
                     ins = [np.array(k, dtype=np.int64), np.array(cond)] + carried
@@ -1260,9 +1297,15 @@ def np_replay(trace, feeds):
                     run(sb["body"], e2)
                     outs = [e2[i] for i in sb["rets"]]
                     cond = bool(outs[0])
-                    carried = outs[1:]
+                    carried = outs[1:1 + nst]
+                    for r, x in zip(rows, outs[1 + nst:]):
+                        r.append(np.asarray(x))
                     k += 1
-                res = tuple(carried)
+                stacked = []
+                for j, r in enumerate(rows):
+                    d_, sh_ = trace["types"][s["ids"][nst + j]]
+                    stacked.append(np.stack(r, axis=0) if r else np.zeros(tuple(sh_), dtype={F: np.float32, I: np.int64, Bo: np.bool_}[d_]))
+                res = tuple(carried) + tuple(stacked)
             elif s["op"] == "Scan":
                 sb = dict(s["subs"])["body"]
                 actual = [(lambda z: np.asarray(z) if isinstance(z, (np.ndarray, np.generic)) else py_lit_array(z))(arg(a, env)) for a in s["args"]]
@@ -1526,10 +1569,20 @@ def toy_sem(op, attrs, vs):
     return [(h + 7919 * i) % TOY_P for i in range(n)]
 
 
+def toy_stack(l):
+    return (_toy_mix(l, 3) + 5) % TOY_P
+
+
+def toy_unstack(z):
+    return [(z * 31 + i) % TOY_P for i in range(z % 3)]
+
+
 def toy_replay(trace, info, lim=5):
     """The harness's own reading of an executed trace (call mode) under the toy kernels of OV.Builder.TraceCF:
     the Python trace function run on integers -- an If reads the branch its condition selects, a Loop iterates the
-    body, bodies see the enclosing values; None = no reading (Scan, a value used outside the scope it was made in)."""
+    body (loop-carried values and scan outputs), a Scan iterates the body over the slices of its scan inputs, bodies see the
+    enclosing values; None = no reading (a value used outside the scope it was made in, a body returning the wrong number
+    of values).  Mirrors OV.Builder.TraceCFX.creplay_x under toy_sem / toy_stack / toy_unstack."""
     env = {i: 1001 + k for k, (_n, _d, _s, i) in enumerate(trace["inputs"])}
 
     def arg(a, env):
@@ -1588,20 +1641,36 @@ def toy_replay(trace, info, lim=5):
                     k = vs[0] % 4 if bounded else lim
                     c = (vs[1] % 2 == 1) if vs[1] is not None else True
                     i = 0
+                    acc = [[] for _ in range(max(0, n - len(st)))]
                     while c:
                         if k == 0:
                             if bounded:
                                 break
                             raise NoReading()
                         r = body(sb, env, [i, 1 if c else 0] + st)
-                        if not r or len(r) - 1 != len(st):
+                        if not r or len(r) - 1 != len(st) + len(acc):
                             raise NoReading()
-                        c, st = (r[0] % 2 == 1), r[1:]
+                        c, st, acc = (r[0] % 2 == 1), r[1:1 + len(st)], [a + [x] for a, x in zip(acc, r[1 + len(st):])]
                         k -= 1
                         i += 1
-                    res = st
-                elif s["subs"]:
-                    raise NoReading()
+                    res = st + [toy_stack(a) for a in acc]
+                elif s["op"] == "Scan":
+                    sb = first_sub(s, "body")
+                    m = s["attrs"].get("num_scan_inputs")
+                    if not isinstance(m, int) or isinstance(m, bool) or any(v is None for v in vs) or not 1 <= m <= len(vs):
+                        raise NoReading()
+                    ns = len(vs) - m
+                    st, xss = vs[:ns], [toy_unstack(v) for v in vs[ns:]]
+                    T = len(xss[0])
+                    if any(len(x) != T for x in xss):
+                        raise NoReading()
+                    acc = [[] for _ in range(max(0, n - ns))]
+                    for t in range(T):
+                        r = body(sb, env, st + [x[t] for x in xss])
+                        if len(r) != len(st) + len(acc):
+                            raise NoReading()
+                        st, acc = r[:len(st)], [a + [x] for a, x in zip(acc, r[len(st):])]
+                    res = st + [toy_stack(a) for a in acc]
                 else:
                     res = toy_sem(s["op"], s["attrs"], vs)
             if len(res) != n or len(s["ids"]) != n:
